@@ -392,7 +392,21 @@ def replayCorr (es : List Corr.Ev) : Corr.St × Option Nat × Nat :=
               (match (Corr.step? s .exited).bind (fun s1 => Corr.step? s1 e) with
                | some s2 => go s2 (Corr.Ev.exited :: early) (taus + 1) (i + 1) rest
                | none => (s, some i, taus))
-            | _ => (s, some i, taus)
+            | _ =>
+              -- the caller's `recv` is logged after the receive itself: the executor's blocked send may
+              -- have completed (and its next steps been logged) before that log entry was written
+              match s.feSending with
+              | some (_, a) =>
+                (match (s.att a).mail with
+                 | m :: _ =>
+                   let rv := Corr.Ev.recv a m.isErr
+                   if rest.contains rv then
+                     match ((Corr.step? s rv).bind (fun s1 => Corr.step? s1 .deliverDone)).bind (fun s2 => Corr.step? s2 e) with
+                     | some s3 => go s3 (rv :: early) (taus + 1) (i + 1) rest
+                     | none => (s, some i, taus)
+                   else (s, some i, taus)
+                 | [] => (s, some i, taus))
+              | none => (s, some i, taus)
   go {} [] 0 0 es
 
 /-- op "corr": one endpoint's correlation events in trace order; answers acceptance and, per attempt
